@@ -3,6 +3,7 @@ CONSTANTS
   Budget = 4
   Enabled = {"Name", "Const", "Set", "Dict", "Comp", "AsyncComp", "NamedExpr", "Await", "Lambda", "Yield", "Tuple", "Expression"}
   NameSet = {"a", "b"}
+  ExtraParens = FALSE
   Emit = TRUE
 SPECIFICATION Spec
 INVARIANTS EmitOK
